@@ -108,11 +108,15 @@ class WorldCheck(Check):
         st, faults, probes = Counter(), Counter(), Counter()
         viol = []
         log.ev('plan', hashlib.sha1(canon({k: plan[k] for k in ('world', 'knobs', 'ops')}).encode()).hexdigest())
+        self._cur_op = None
         try:
             self.execute(plan, log, st, faults, probes, viol)
         finally:
             import openmdao.utils.relevance as rel
             rel._no_relevance = False
+        if self._cur_op is not None:
+            for v_ in viol:
+                v_.setdefault('op_index', self._cur_op)     # the op a history-dependent finding class looks back from
         kfail = False
         for k_ in [k_ for k_ in probes if k_.startswith('_kfail_')]:
             kfail = bool(probes.pop(k_)) or kfail
@@ -643,6 +647,7 @@ class HistoryCheck(WorldCheck):
         ctx = {}
         last_fault_idx = max([k for k, o in enumerate(plan['ops']) if o['op'] == 'fault'], default=-1)
         for k, op in enumerate(plan['ops']):
+            self._cur_op = k
             outs = []
             for sim in sims:
                 res, raised, fired = sim.do(op)
@@ -1780,10 +1785,12 @@ class C12(HistoryCheck):
         return ('colored',) if plan['knobs'].get('twin_colored') else ()
 
     @staticmethod
-    def finding_classes(plan):
+    def finding_classes(plan, upto=None):
         """Configuration classes of the recorded findings (known_findings.json) that apply to a plan, in order
-        of precedence; evaluated on the plan only, so that shrinking keeps a violation inside its class."""
+        of precedence; evaluated on the plan only, so that shrinking keeps a violation inside its class.
+        upto: index of the op the violation was raised on (history-dependent classes look at the ops before it)."""
         w, kn = plan['world'], plan['knobs']
+        ops = plan['ops'] if upto is None else plan['ops'][:upto + 1]
         out = []
         scoped = [(g_, a) for g_, a in (kn.get('group_approx') or {}).items() if g_ in w['groups']]
         if kn.get('approx_totals'):
@@ -1797,7 +1804,19 @@ class C12(HistoryCheck):
                     for gn, s_ in w['solvers'].items() if inside(gn, g_)):
                 out.append('cs-across-newton-with-iterative-linear-solver')
                 break
-        if any(o['op'] == 'apply_nonlinear' for o in plan['ops']) and any(
+        # stale residuals need a history: residuals evaluated by the user (apply_nonlinear), then something that
+        # moves the state without evaluating them again (run_model under a run-once group, set_val, ...), then
+        # the derivative op.  A derivative op straight after apply_nonlinear sees current residuals.
+        state, stale_possible = 'solver', False
+        for i, o in enumerate(ops):
+            deriv = o['op'] in ('totals', 'linearize')
+            if deriv and state == 'stale' and (upto is None or i == len(ops) - 1):
+                stale_possible = True
+            if o['op'] == 'apply_nonlinear':
+                state = 'user'
+            elif not deriv and o['op'] != 'fault' and state == 'user':
+                state = 'stale'
+        if stale_possible and any(
                 c['kind'] == 'imp' and (c.get('approx') or {}).get('method') == 'fd' and c['approx']['form'] != 'central'
                 for c in w['comps']):
             out.append('one-sided-fd-of-implicit-component-on-stale-residuals')
@@ -1819,18 +1838,19 @@ class C12(HistoryCheck):
         return list(dict.fromkeys(out))
 
     @classmethod
-    def finding_class(cls, plan):
-        c = cls.finding_classes(plan)
+    def finding_class(cls, plan, upto=None):
+        c = cls.finding_classes(plan, upto)
         return c[0] if c else None
 
     def signature(self, plan, viol):
         sig = WorldCheck.signature(self, plan, viol)
+        upto = viol.get('op_index')
         if viol['inv'] == 'I-12-values':
-            cls = self.finding_class(plan)
+            cls = self.finding_class(plan, upto)
             if cls:
                 sig += ':' + cls
         elif viol['inv'] == 'I-12-partials' and \
-                'one-sided-fd-of-implicit-component-on-stale-residuals' in self.finding_classes(plan):
+                'one-sided-fd-of-implicit-component-on-stale-residuals' in self.finding_classes(plan, upto):
             # the same recorded finding seen on the partials themselves
             sig = 'I-12-values:one-sided-fd-of-implicit-component-on-stale-residuals'
         elif viol['inv'] == 'I-exception' and 'direct.py:_linearize' in viol.get('ctx', '') and \
@@ -1838,7 +1858,7 @@ class C12(HistoryCheck):
             # the same two causes with another symptom: when the sub-jacobians the matrix is wrongly built
             # from were never computed (partials approximated or set in compute_partials) the rows are zero
             # and DirectSolver refuses the matrix instead of returning wrong totals
-            cls = [c_ for c_ in self.finding_classes(plan) if c_ in
+            cls = [c_ for c_ in self.finding_classes(plan, upto) if c_ in
                    ('approximated-group-under-assembled-jacobian', 'approximated-group-holds-implicit-component')]
             if cls:
                 sig = 'I-12-values:' + cls[0]
